@@ -41,6 +41,10 @@ type Caps struct {
 	CursorStyle        int // DECRQSS answer (0-6); -1 = no reply
 	AppID              string
 	NoDA1              bool
+	// UnsupportedStatus is the DECRPM status reported for a mode the terminal
+	// does not implement when RepliesUnsupported is set: 0 (not recognised)
+	// or 4 (permanently reset: the mode number is known but cannot be set).
+	UnsupportedStatus int
 	// PreSet lists gated private modes that are already set when the
 	// application starts (DECRQM then answers Ps=1 instead of 2).
 	PreSet map[int]bool
@@ -75,6 +79,9 @@ func FromMask(m int, alt bool) Caps {
 	}
 	c.OSC4, c.OSC10, c.OSC11, c.OSC176, c.ExplicitWidth = bit(10), bit(11), bit(12), bit(13), bit(14)
 	c.RepliesUnsupported = alt
+	if alt && m%3 != 1 {
+		c.UnsupportedStatus = 4
+	}
 	return c
 }
 
@@ -155,7 +162,7 @@ func (r *Responder) handle(t lexer.Token) {
 			} else if sup {
 				r.send(fmt.Sprintf("\x1b[?%d;2$y", n))
 			} else if c.RepliesUnsupported {
-				r.send(fmt.Sprintf("\x1b[?%d;0$y", n))
+				r.send(fmt.Sprintf("\x1b[?%d;%d$y", n, c.UnsupportedStatus))
 			}
 		case t.B == 'q' && t.Priv == ">":
 			r.Queries = append(r.Queries, "xtversion")
